@@ -175,6 +175,9 @@ func runC05(c *Ctx) {
 		c.obFollow("failed pipe copy discards the remainder", f, func(in ssa.Instruction) bool { return in == cp }, []string{"drain:io.Reader"}, c.F.SkipUnder(errAtom), nil)
 	}
 
+	R.Rule("R-bdat-reader-is-the-pipe", "E4 value flow", "the backend reads the pipe's reading end itself: exactly the concatenation of the chunk payloads, end-of-file only by the clean close after LAST", 2)
+	ruleBdatReaderIsPipe(c)
+	ruleGoCapture(c) // the reply to BDAT LAST is the result of THIS message's Data call: the delivery goroutine reports through the channel it captured, not through a connection field a later message may have replaced
 	R.Rule("R-bdat-linelimit", "E2", "the line limit is lifted before the chunk is copied to the pipe", 1)
 	for _, cp := range s.Find(f, "copy-to:Conn.bdatPipe") {
 		seen := s.SeenBefore(cp)
